@@ -69,12 +69,12 @@ func init() {
 	register(&spec{
 		ID: "C03", Title: "Only pods that must go are ever deleted",
 		Runs: []runSpec{
-			step("step", []int{1, 2, 1, oThreeRevs, mC03}, []int{2, 2, 1, oThreeRevs, mC03},
+			step("step", []int{2, 2, 1, oThreeRevs, mC03}, []int{2, 3, 2, oThreeRevs, mC03},
 				[]string{"every delete has a reason", "live up-to-date desired pod never deleted"},
 				[]string{"scale-in delete", "failed pod replaced", "update delete"}),
 			step("step-wide-ordinals", []int{1, 1, 1, oBase8 | oLeanPods, mC03}, []int{2, 1, 1, oBase8 | oLeanPods | oThreeRevs, mC03},
 				[]string{"every delete has a reason"}, []string{"scale-in delete"}),
-			step("step-two-healthy-pods", []int{2, 2, 1, oLeanPods | oThreeRevs, mC03}, []int{3, 2, 1, oLeanPods | oThreeRevs, mC03},
+			step("step-three-healthy-pods", []int{3, 1, 1, oLeanPods | oThreeRevs, mC03}, []int{3, 2, 1, oLeanPods | oThreeRevs, mC03},
 				[]string{"every delete has a reason"}, []string{"scale-in delete", "update delete"}),
 		},
 		Stubs: ctlStubs, Assumptions: stepAssume, OutsideClaim: stepOutside,
@@ -82,10 +82,10 @@ func init() {
 	register(&spec{
 		ID: "C04", Title: "Pods are created only at vacant desired ordinals",
 		Runs: []runSpec{
-			step("step", []int{1, 2, 1, oThreeRevs | oDeleting, mC04}, []int{2, 2, 1, oThreeRevs | oDeleting, mC04},
+			step("step", []int{2, 2, 1, oThreeRevs | oDeleting, mC04}, []int{2, 3, 2, oThreeRevs | oDeleting, mC04},
 				[]string{"created ordinal is desired", "created ordinal is not a delete slot", "no create for a set being deleted"},
 				[]string{"vacant ordinal filled", "finished pod re-created"}),
-			step("step-two-healthy-pods", []int{2, 2, 1, oLeanPods | oThreeRevs | oDeleting, mC04}, []int{3, 2, 1, oLeanPods | oThreeRevs | oDeleting, mC04},
+			step("step-three-healthy-pods", []int{3, 1, 1, oLeanPods | oThreeRevs | oDeleting, mC04}, []int{3, 2, 1, oLeanPods | oThreeRevs | oDeleting, mC04},
 				[]string{"created ordinal is desired"}, []string{"vacant ordinal filled"}),
 			step("step-arbitrary-slots", []int{1, 2, 2, oPolicyParallel | oLeanPods | oNoRollout | oWildSlots, mC04 | mC14}, []int{1, 3, 2, oLeanPods | oWildSlots, mC04 | mC14},
 				[]string{"created ordinal is desired", "every vacant desired ordinal is created in the same reconcile"},
@@ -96,7 +96,7 @@ func init() {
 	register(&spec{
 		ID: "C05", Title: "OrderedReady: one pod at a time, predecessors healthy, scale-in from the top",
 		Runs: []runSpec{
-			step("step", []int{2, 2, 1, oPolicyOrdered, mC05}, []int{3, 2, 1, oPolicyOrdered, mC05},
+			step("step", []int{3, 2, 1, oPolicyOrdered, mC05}, []int{4, 2, 1, oPolicyOrdered, mC05},
 				[]string{"at most one ordinal is created or deleted per reconcile"},
 				[]string{"ordered create", "ordered scale-in delete", "ordered update delete"}),
 			step("step-wide-ordinals", []int{2, 1, 1, oPolicyOrdered | oBase8 | oLeanPods, mC05}, []int{2, 1, 2, oPolicyOrdered | oBase8, mC05},
@@ -108,10 +108,10 @@ func init() {
 	register(&spec{
 		ID: "C07", Title: "Rolling update honours partition, goes highest-first; OnDelete never restarts",
 		Runs: []runSpec{
-			step("step", []int{1, 2, 1, oThreeRevs, mC07}, []int{2, 2, 1, oThreeRevs, mC07},
+			step("step", []int{2, 2, 1, oThreeRevs, mC07}, []int{2, 3, 2, oThreeRevs, mC07},
 				[]string{"at most one pod is deleted for update per reconcile", "no update delete below the partition"},
 				[]string{"update delete seen", "create with a partition"}),
-			step("step-two-healthy-pods", []int{2, 2, 1, oLeanPods | oThreeRevs, mC07}, []int{3, 2, 1, oLeanPods | oThreeRevs, mC07},
+			step("step-three-healthy-pods", []int{3, 1, 1, oLeanPods | oThreeRevs, mC07}, []int{3, 2, 1, oLeanPods | oThreeRevs, mC07},
 				[]string{"update delete only when every higher desired pod is updated and healthy"}, []string{"update delete seen"}),
 		},
 		Stubs: ctlStubs, Assumptions: stepAssume,
@@ -132,10 +132,10 @@ func init() {
 	register(&spec{
 		ID: "C14", Title: "Parallel policy never waits on other pods when scaling",
 		Runs: []runSpec{
-			step("step", []int{1, 2, 1, oPolicyParallel | oThreeRevs, mC14}, []int{2, 2, 1, oPolicyParallel | oThreeRevs, mC14},
+			step("step", []int{2, 2, 1, oPolicyParallel | oThreeRevs, mC14}, []int{2, 3, 2, oPolicyParallel | oThreeRevs, mC14},
 				[]string{"every vacant desired ordinal is created in the same reconcile", "every live pod outside the desired set is deleted in the same reconcile"},
 				[]string{"parallel reconcile checked"}),
-			step("step-two-healthy-pods", []int{2, 2, 1, oPolicyParallel | oLeanPods | oThreeRevs, mC14}, []int{3, 2, 1, oPolicyParallel | oLeanPods | oThreeRevs, mC14},
+			step("step-three-healthy-pods", []int{3, 1, 1, oPolicyParallel | oLeanPods | oThreeRevs, mC14}, []int{3, 2, 1, oPolicyParallel | oLeanPods | oThreeRevs, mC14},
 				[]string{"every live pod outside the desired set is deleted in the same reconcile"}, []string{"parallel reconcile checked"}),
 		},
 		Stubs: ctlStubs, Assumptions: stepAssume, OutsideClaim: stepOutside,
